@@ -161,3 +161,58 @@ def random_walks(g, n, length, rng):
             cur = d
         walks.append(w)
     return walks
+
+
+def paths(g, cap, rng):
+    """Complete paths (initial state -> a state without successors) of an acyclic graph: all of them when there are
+    at most `cap`, otherwise `cap` paths drawn uniformly.  Returns (list of label lists, total number of paths)."""
+    import sys
+    sys.setrecursionlimit(100000)
+    init = g.init[0]
+    count = {}
+    order = []
+    seen = set()
+    stack = [(init, iter(g.adj.get(init, [])))]
+    seen.add(init)
+    while stack:                                   # iterative post-order
+        n, it = stack[-1]
+        adv = False
+        for lab, d in it:
+            if d not in seen:
+                seen.add(d)
+                stack.append((d, iter(g.adj.get(d, []))))
+                adv = True
+                break
+        if not adv:
+            order.append(n)
+            stack.pop()
+    for n in order:
+        es = g.adj.get(n, [])
+        count[n] = sum(count[d] for _, d in es) if es else 1
+    total = count[init]
+    out = []
+    if total <= cap:
+        def rec(n, acc):
+            es = g.adj.get(n, [])
+            if not es:
+                out.append(list(acc))
+                return
+            for lab, d in es:
+                acc.append(lab)
+                rec(d, acc)
+                acc.pop()
+        rec(init, [])
+        return out, total
+    for _ in range(cap):
+        n, acc = init, []
+        while g.adj.get(n):
+            es = g.adj[n]
+            r = rng.randrange(count[n])
+            for lab, d in es:
+                if r < count[d]:
+                    acc.append(lab)
+                    n = d
+                    break
+                r -= count[d]
+        out.append(acc)
+    return out, total
